@@ -716,6 +716,27 @@ theorem fastx_either_kind_source_eq_model {α β : Type} (fa : Bytes → α) (fq
   | nil => simp [sniff] at hk
   | cons b r => cases k <;> simp [eitherAfter, hk, GenSrcFastx.toKind]
 
+open RbV.Thm.GenSrcFastx (readExactOp chainOp eitherAfter wrapFa wrapFq illegalStart) in
+/-- **`EitherRecords::next`, source text**: once the reader has been taken, `next` is the `next` of the iterator the object
+holds (`faN` / `fqN` = `fasta::` / `fastq::Records::next`, whose translations are `Gen.SrcFasta.next` / `Gen.SrcFastq.next`), its
+new state written back and the item wrapped (`Ok(r)` ↦ `Ok(EitherRecord::FASTA(r))`, `Err(e)` ↦ `Err(Error::IO(e))`, resp.
+`FASTQ`); the first call on a fresh object sniffs first — an illegal start character is the item `Some(Err(Error::IO(_)))`,
+after which (and on empty input) the iterator is exhausted. -/
+theorem fastx_either_next_source_eq_model {α β γ δ ε : Type} (fa : Bytes → α) (fq : Bytes → β)
+    (faN : α → Option (Except IoErr γ) × α) (fqN : β → Option (Except ε δ) × β) :
+    (∀ recs : Option (α ⊕ β),
+      Gen.SrcFastx.eitherNext readExactOp chainOp fa fq faN fqN recs none =
+        Res.ok (match recs with
+          | some (.inl a) => ((faN a).1.map wrapFa, some (.inl (faN a).2), none)
+          | some (.inr b) => ((fqN b).1.map wrapFq, some (.inr (fqN b).2), none)
+          | none => (none, none, none))) ∧
+    (∀ file : Bytes,
+      Gen.SrcFastx.eitherNext readExactOp chainOp fa fq faN fqN none (some file) =
+        (match file, sniff file with
+         | b :: _, none => Res.ok (some (.error (.inl (illegalStart b))), none, none)
+         | _, _ => Gen.SrcFastx.eitherNext readExactOp chainOp fa fq faN fqN (eitherAfter fa fq file).2 none)) :=
+  ⟨GenSrcFastx.eitherNext_eq_model fa fq faN fqN, GenSrcFastx.eitherNext_fresh fa fq faN fqN⟩
+
 open RbV.Thm.GenSrcFastx (readExactOp chainOp) in
 /-- **sniffer + FASTA reader, source text to source text**: on the translated writer's output for a non-empty list of valid
 text records the translated `get_kind` answers FASTA and hands back a reader over the same bytes; the translated `Records`
